@@ -251,7 +251,7 @@ func (Length) Eval(value Term, symbols *SymbolTable) (Term, error) {
 	case TermTypeBytes:
 		out = Integer(len(value.(Bytes)))
 	case TermTypeSet:
-		out = Integer(len(value.(Set)))
+		out = Integer(value.(Set).Len())
 	default:
 		return nil, fmt.Errorf("datalog: unexpected Length value type: %d", value.Type())
 	}
